@@ -221,7 +221,9 @@ let () =
             (* nothing farther from A than reach(B) (+ margin): grid over the inflated box of A and of the result *)
             let reach2 = List.fold_left (fun acc p -> zmax acc (norm2 p)) Z0 pb in
             let reach = zadd (csqrt reach2) (zmul (z_of_int 10) rr) in
-            let reach_sq = qz (zmul reach reach) in
+            let reach_z2 = zmul reach reach in
+            let reach_sq = qz reach_z2 in
+            let va = Array.to_list (mesh_pts emin a) in
             let (x0, x1), (y0, y1), (z0, z1) = bbox_pts (pa @ (if tr = [] then [] else tri_pts tr)) in
             let m2 = zmul (z_of_int 2) reach in
             (* round the box outwards to multiples of 256 so the grid stays exact *)
@@ -230,7 +232,8 @@ let () =
             let far_probe p =
                 if not (inside ta p) then begin
                   (* exact: is p farther than reach from every triangle of A? *)
-                  let close = ref false in
+                  (* cheap sufficient test first: a vertex of A within reach (integers only) *)
+                  let close = ref (List.exists (fun v -> zle (norm2 (psubz p v)) reach_z2) va) in
                   List.iter (fun (tri, bx) ->
                       if not !close && not (far_axis p bx reach) then
                         (match pt_tri_dist2 p tri with None -> cert := false | Some d -> if qle_bool d reach_sq then close := true)) ba;
@@ -248,7 +251,7 @@ let () =
             (* around the result (inflated box) and, densely, inside the box of A itself: gaps between
                components of A and concavities of A are sampled there *)
             List.iter far_probe (grid 5 ((dn x0, up x1), (dn y0, up y1), (dn z0, up z1)));
-            List.iter far_probe (grid 7 (bbox_pts pa));
+            List.iter far_probe (grid 6 (bbox_pts pa));
             if not !cert then Printf.printf "V %s mink CERTFAIL\n" id
             else Printf.printf "V %s sum %d %d %d %d %d %d %d %d %d %d %d %d %d | %s\n" id status (b2i origin_in_b) (b2i r_closed)
                 (List.length sa) (List.length sb) !tested !missing !skipped !a_tested !a_missing !far_tested !far_inside r.nt (!first ^ " " ^ !far_first)
